@@ -7,7 +7,7 @@ import ast
 from ..model import unparse, walk_no_nested
 from ..norm import Normalizer, calls_to, mentions_name, show, subterms
 from ..rules import calls_from, return_terms
-from ..sdp import Skeleton, psd_ok
+from ..sdp import Skeleton, psd_ok, r_hermitian_vars
 from .disc_common import dispatcher, expand1, min_error_dual, min_error_primal, returns_optimum, solve_threading
 
 
@@ -17,6 +17,10 @@ def run(ctx):
     ctx.rule("R-SDP", "S1-S7 on the four exclusion programs")
     ctx.rule("R-ENUM", "p_i paired with rho_i and M_i of the same index over all states")
     ctx.rule("R-THREAD", "solver / **kwargs / probs / dim reach all four programs; antidistinguishability delegates with unit weights")
+    from .families import check_pbr, check_trine
+    ctx.rule("R-ENUM", "state families: trine = three vectors 120 degrees apart; PBR = every bit string, every position contributes psi[b] once, in order")
+    check_trine(ctx)
+    check_pbr(ctx)
     mod = "state_exclusion"
     se = m.func(f"{mod}.state_exclusion")
     allh = {"_min_error_primal", "_min_error_dual", "_unambiguous_primal", "_unambiguous_dual"}
@@ -40,6 +44,7 @@ def run(ctx):
     # unambiguous primal
     up = m.func(f"{mod}._unambiguous_primal")
     sk = Skeleton(m, up)
+    r_hermitian_vars(ctx, up, sk)
     Ni = Normalizer(m, up, inline=True)
     if sk.probs:
         p = sk.probs[0]
@@ -70,6 +75,7 @@ def run(ctx):
         returns_optimum(ctx, up, sk)
     ud = m.func(f"{mod}._unambiguous_dual")
     sk2 = Skeleton(m, ud)
+    r_hermitian_vars(ctx, ud, sk2)
     if sk2.probs:
         p = sk2.probs[0]
         ctx.ob("R-SDP", ud, "objective sense == max", p.sense == "max", p.sense or "?", p.node)
